@@ -1,8 +1,12 @@
-(** C09 -- each VM kind presents the documented execution context (interpreter part).
-    Proofs: theories/InterpProofs.v (register initialisation regenerated from interpreter.rs). *)
+(** C09 -- each VM kind presents the documented execution context.  Interpreter: the register initialisation regenerated from
+    interpreter.rs (theories/InterpProofs.v).  Cranelift: the registers defined by build_function_prelude, regenerated into
+    coq/gen/Clir.v (theories/ClirProofs.v).  x86-64 JIT: the prologue emitted by jit_compile for each VM kind, regenerated into
+    coq/gen/JitFrame.v, under the stack machine X86Stk.v (theories/JitFrameProofs.v).  The lib.rs wrappers (which pointers and
+    lengths each VM kind passes to the compiled code) are exercised by checks/C09.py on every VM kind and engine. *)
 From Coq Require Import ZArith List Bool.
 From RbpfV Require Import MachInt Ebpf Cases Mem InterpDefs WellFormed Verifier Isa MemLemmas Interp InterpProofs.
-From RbpfV.gen Require Import Interp.
+From RbpfV Require Import ClirSem ClirProofs X86Sem X86Seq X86Stk JitFrameProofs.
+From RbpfV.gen Require Import Interp Clir JitFrame.
 Import ListNotations.
 Open Scope Z_scope.
 
@@ -28,5 +32,49 @@ Theorem C09_ldabs_addresses_packet : forall E i reg next fidx stacks m o,
   = ArmBase.conv (isa_exec E i reg next fidx stacks m).
 Proof. intros. now apply InterpArmsMem.ldabs_arms. Qed.
 
+(** Cranelift: with the parameters p0..p3 = (packet pointer, packet length, metadata pointer, metadata length) and the 512-byte
+    stack slot at ss, the prelude defines r1 = metadata pointer if the metadata buffer is non-empty, else the packet pointer;
+    r10 = end of the stack slot = upper bound of the stack region of the bounds check; and otherwise only r2 *)
+Theorem C09_cranelift_entry : forall p0 p1 p2 p3 ss sz,
+  0 <= p0 < 2 ^ 64 -> 0 <= p2 < 2 ^ 64 -> 0 <= p3 < 2 ^ 64 -> 0 <= ss -> 0 <= sz -> ss + sz < 2 ^ 64 ->
+  let regs := gen_prelude_regs p0 p1 p2 p3 ss sz in
+  reg_lookup 1 regs = Some (if p3 =? 0 then p0 else p2) /\
+  reg_lookup 10 regs = Some (ss + sz) /\
+  reg_lookup 10 regs = Some (v_stack_end (gen_prelude_vars p0 p1 p2 p3 ss sz)) /\
+  map fst regs = [1; 2; 10].
+Proof. exact prelude_regs. Qed.
+
+(** x86-64 JIT.  The compiled function is entered (System V) with rdi = metadata pointer, rdx = packet pointer, rcx = packet
+    length, r8 / r9 = the two offsets of the fixed metadata buffer, rsp = R0 4.  Each prologue ends with `call +5; jmp exit`
+    (the call skips exactly the 5-byte jmp); before that, it leaves: rdi (eBPF r1) = the packet pointer without metadata
+    buffer, the metadata pointer with one; r10 (base of absolute / indirect loads) = the packet pointer; rbp (eBPF r10) = rsp
+    after saving rbp, rbx, r13, r14, r15, and rsp 512 + 8 bytes lower -- so [r10 - 512, r10) is private to the program; for
+    the fixed kind the words at metadata + r8 and metadata + r9 hold the packet start and end *)
+Theorem C09_jit_prologue_no_metadata : forall R0 m0, (forall r, 0 <= R0 r < 2 ^ 64) -> 1024 <= R0 4 ->
+  ends_with_landing gen_jit_prologue_nombuff /\
+  exists R, krun (body_of gen_jit_prologue_nombuff) (R0, m0) = Some (R, m5 R0 m0) /\
+    R 7 = R0 2 /\ R 10 = R0 2 /\ framed R0 R /\ saved R0 (m5 R0 m0) /\ forall r, ~ In r [4; 5; 7; 10] -> R r = R0 r.
+Proof. exact jit_prologue_nombuff. Qed.
+
+Theorem C09_jit_prologue_metadata : forall R0 m0, (forall r, 0 <= R0 r < 2 ^ 64) -> 1024 <= R0 4 ->
+  ends_with_landing gen_jit_prologue_mbuff /\
+  exists R, krun (body_of gen_jit_prologue_mbuff) (R0, m0) = Some (R, m5 R0 m0) /\
+    R 7 = R0 7 /\ R 10 = R0 2 /\ framed R0 R /\ saved R0 (m5 R0 m0) /\ forall r, ~ In r [4; 5; 10] -> R r = R0 r.
+Proof. exact jit_prologue_mbuff. Qed.
+
+Theorem C09_jit_prologue_fixed_metadata : forall R0 m0, (forall r, 0 <= R0 r < 2 ^ 64) -> 1024 <= R0 4 ->
+  apart (A1 R0) (A2 R0) -> apart (A2 R0) (A1 R0) -> (forall a, In a (slots R0) -> apart (A1 R0) a /\ apart (A2 R0) a) ->
+  ends_with_landing gen_jit_prologue_fixed /\
+  exists R, krun (body_of gen_jit_prologue_fixed) (R0, m0) = Some (R, mfix R0 m0) /\
+    R 7 = R0 7 /\ R 10 = R0 2 /\ framed R0 R /\
+    load8 (mfix R0 m0) (A1 R0) = R0 2 /\ load8 (mfix R0 m0) (A2 R0) = mem_end R0 /\ saved R0 (mfix R0 m0) /\
+    (forall r, ~ In r [4; 5; 8; 9; 10] -> R r = R0 r) /\
+    (forall x, 8 <= (x - A1 R0) mod 2 ^ 64 -> 8 <= (x - A2 R0) mod 2 ^ 64 -> mfix R0 m0 x = m5 R0 m0 x).
+Proof. exact jit_prologue_fixed. Qed.
+
 Print Assumptions C09_entry_registers.
+Print Assumptions C09_jit_prologue_no_metadata.
+Print Assumptions C09_jit_prologue_metadata.
+Print Assumptions C09_jit_prologue_fixed_metadata.
+Print Assumptions C09_cranelift_entry.
 Print Assumptions C09_entry_values.
